@@ -27,9 +27,13 @@ sys.path.insert(0, C.REPO)          # the implementation is imported from /repo'
 
 TRUSTED_BASE = [
     'Coq 8.16.1 kernel and vm_compute (no native_compute, no extraction)',
-    'translator harness/translate/py2coq.py + gen.py (Python ast -> Gallina over pyval), fail-closed',
+    'translator harness/translate/*.py (Python ast -> Gallina over pyval; the wrapper / matcher / profiler '
+    'translators also rewrite pandas and joblib operations into the primitives of Model/Frame.v and drop '
+    'shape-checked validators and the tokenizer flag switch), fail-closed, compared with the real functions on every run',
     'Python-semantics library coq/Num/PyNum.v, F64.v (validated by function-level correspondence)',
-    'hand-written models coq/Model/*.v, coq/Ext/*.v (tied to the code by differential runs only)',
+    'hand-written models coq/Model/*.v, coq/Ext/*.v: Filters, Joins, Api, Matcher, Projection, Profiler, TokenOrdering are '
+    'proved to be refined by the regenerated code (Proofs/*Refine*.v, CodeLevel*.v); Suffix and Converter are tied by '
+    'differential runs only; Frame.v / ProfFrame.v (rows + header, no index, no dtypes) model pandas',
     'external components modelled, not verified: CPython numerics, pandas, joblib, py_stringmatching',
     'correspondence harness (sampled): harness/*.py',
 ]
